@@ -89,4 +89,38 @@ Definition spec_C05 (sc : escen) (ob : eobs) : bool :=
   (if scen_full sc && root_known sc then spec_C05_runs sc (es_precancel sc) ob else true).
 
 Definition spec_C01 (sc : escen) (ob : eobs) : bool := spec_lifecycle sc ob && spec_C18 sc ob.
-Definition spec_C04 (sc : escen) (ob : eobs) : bool := spec_lifecycle sc ob.
+
+(* ------------------------------------------------------------ C04: stated directly *)
+(* a failed run: the last callback of the trace returned the error the run reports (matching
+   through every wrap), or the error is the context's and the context was cancelled, or it is
+   a framework error; nothing follows the failing callback because it is the last entry *)
+Definition last_visible (tr : list event) : option event :=
+  match rev (filter (fun e => negb (is_wait (ev_call e))) tr) with
+  | e :: _ => Some e
+  | [] => None
+  end.
+Definition last_err_matches (tr : list event) (e : err) : bool :=
+  match last_visible tr with
+  | Some (_, RErr u, _) => err_sim e u
+  | _ => false
+  end.
+Definition fail_last_ok (canc0 : bool) (tr : list event) (oc : act * option err) : bool :=
+  match oc with
+  | (_, None) => true
+  | (_, Some e) =>
+      match class_of e with
+      | KUser _ => last_err_matches tr e
+      | KCtx => canc0 || existsb ev_cancel tr || last_err_matches tr e
+      | KFw => true
+      end
+  end.
+Fixpoint spec_fail_last_runs (canc : bool) (ob : eobs) : bool :=
+  match ob with
+  | [] => true
+  | (tr, oc, fl) :: rest =>
+      match fl with OkRun => fail_last_ok canc tr oc | _ => false end
+      && spec_fail_last_runs (canc || existsb ev_cancel tr) rest
+  end.
+
+Definition spec_C04 (sc : escen) (ob : eobs) : bool :=
+  spec_lifecycle sc ob && spec_fail_last_runs (es_precancel sc) ob.
